@@ -1051,6 +1051,7 @@ fn info_grid() -> Vec<Case18> {
                 // never-set (fresh), partially set, fully set
                 v.push(Case18::Info(InfoArgs { rate, channels, bps, ops: vec![] }));
                 v.push(Case18::Info(InfoArgs { rate, channels, bps, ops: vec![InfoOp::BlockSizes(1024, 1024)] }));
+                v.push(Case18::Info(InfoArgs { rate, channels, bps, ops: vec![InfoOp::BlockSizes(1024, 1024), InfoOp::Md5(0x5A)] }));
                 v.push(Case18::Info(InfoArgs { rate, channels, bps, ops: full(1024, 4096, 100, 200, 99) }));
             }
         }
